@@ -596,8 +596,12 @@ def r4(ctx, F, rule, sfx):
         ctx.evaluations += ip.evaluations
         t = repr(I.frozen(v)).replace(' ', '')
         if k >= 2:
-            want = 'call:geometry::%s(%s)' % (ctors[k], ','.join('DVec3{x:p%d.x,y:p%d.y,z:p%d.z}' % (i, i, i) for i in range(k)))
-            ctx.check(rule, 'boundary-points-%d%s' % (k, sfx), t == want, t[:120], '%s(points[0], .., points[%d])' % (ctors[k], k - 1), w, key_extra='k%d' % k)
+            # the sphere through k points does not depend on the order they are named in: every point once, any order
+            pts_txt = ['DVec3{x:p%d.x,y:p%d.y,z:p%d.z}' % (i, i, i) for i in range(k)]
+            head = 'call:geometry::%s(' % ctors[k]
+            ok_k = t.startswith(head) and t.endswith(')') and sorted(re.findall(r'DVec3\{x:p\d\.x,y:p\d\.y,z:p\d\.z\}', t[len(head):-1])) == sorted(pts_txt) \
+                and re.sub(r'DVec3\{x:p\d\.x,y:p\d\.y,z:p\d\.z\}', '', t[len(head):-1]).strip(',') == ''
+            ctx.check(rule, 'boundary-points-%d%s' % (k, sfx), ok_k, t[:120], '%s(points[0], .., points[%d]) (each point once)' % (ctors[k], k - 1), w, key_extra='k%d' % k)
         elif k == 1:
             ok = False
             detail = t[:120]
